@@ -1999,6 +1999,8 @@ func init() {
 	add("C03", "R04.3 is claimed here too: the subscriber is registered with the topics it asked for (its subscription is stored as received), which is what \"never to any other subscriber\" is judged against.", "R04.3")
 	add("C17", "R03.6 is claimed here too: \"that Publish returns [the Put error]\" rests on Publish returning what arrives on its reply channel.", "R03.6")
 	add("C05", "R06.1 is claimed here too: a subscriber's channel closed twice panics Joe's goroutine and with it the server process.", "R06.1")
+	add("C03", "R04.2 is claimed here too: what is handed to the subscribers is the published message unless Put returned a non-nil replacement; a nil message handed out is not the message that was accepted.", "R04.2")
+	add("C11", "R10.5 is claimed here too: \"returns at once without retrying when the body reset fails\" holds for a second Connect on the same Connection only if the retry marker survives the first.", "R10.5")
 	add("C16", "R15.2 is claimed here too: Session.Send returns what Message.WriteTo returns, so \"the first write error is returned to the caller\" rests on WriteTo stopping at, and returning, the first failing write.", "R15.2")
 	add("C17", "R08.1/R09.6 are claimed here too: a Put that fails must not have stored anything; an entry without a message makes the next Replay panic, which disables the replayer for every later subscriber although only one publisher's message was at fault.", "R08.1", "R09.6")
 	add("C20", "R11.2 is claimed here too: after ErrTooLong the attempt ends (and is retried from a fresh request); re-reading the half-consumed body delivers a truncated event.", "R11.2")
